@@ -165,16 +165,16 @@ def run(ctx):
                 if not (r[0] == "agg" and r[2] == "Accepted"):
                     exit_ok = False
         ctx.check(exit_ok, "R06.2", "%s|enough-space-accepts" % en, "when enough space results the put is accepted", f.where(gb))
-        for nt in none_t:
-            vals = set()
-            for p in enum_paths(f):
-                if nt in p and pb in p and p.index(nt) > p.index(pb):
-                    atoms = path_atoms(f, p)
-                    q = [a for a in atoms if a[0] == "bool" and M.is_query_field(a[1], w, "1") and p.index(a[3]) > p.index(nt)]
-                    r = path_return(f, p, atoms)
-                    vals.add((q[0][2] if q else None, (ret_variant(r) or ("?",))[0]))
-            ctx.check(vals <= {(True, "Accepted"), (False, "Rejected")} and len(vals) == 2, "R06.2", "%s|empty-sample" % en,
-                      "when no victim is left the put is accepted iff the space now suffices, else rejected", f.where(nt), str(sorted(vals, key=repr)))
+        # sample exhausted: accepted iff a query made *after* the empty pop says the incoming weight fits now
+        vals = set()
+        for sp in ipaths(F, f, stop=lambda n: n in M.qnames or n in dec_fns or n in pop_fns or n in M.inc_defs, depth=2):
+            pe = [e for e in sp.events if e.callee in pop_fns and sp.variant_of(e.res) == ("None",)]
+            if not pe:
+                continue
+            q = [a for a in sp.atoms if a[0] == "bool" and M.is_query_field(a[1], w, "1") and a[4] > pe[-1].seq]
+            vals.add((q[-1][2] if q else None, (sp.ret_variant() or ("?",))[0]))
+        ctx.check(vals <= {(True, "Accepted"), (False, "Rejected")} and len(vals) == 2, "R06.2", "%s|empty-sample" % en,
+                  "when no victim is left the put is accepted iff the space now suffices, else rejected", f.where(), str(sorted(vals, key=repr)))
 
     for s_ in M.sites + M.helper_sites:
         ctx.check(s_["kind"] != "unclassified" and s_.get("exact", True), "R06.7", "%s|total-written-exactly" % s_["fn"].name,
@@ -189,7 +189,7 @@ def run(ctx):
         for fo, wo in itertools.product((-1, 0, 1), repeat=2):
             # fo: sign of self.freq - other.freq ; wo: sign of self.weight - other.weight
             try:
-                got = eval_ordering(r, {"estimated_frequency": fo, "weight": wo})
+                got = eval_comparator(F, f, {"estimated_frequency": fo, "weight": wo})
             except ValueError as e:
                 bad.append(str(e))
                 break
@@ -233,7 +233,7 @@ def run(ctx):
                 arg = f.op_origin(t["args"][1])
                 ok = mentions(arg, lambda s: s[0] == "field" and s[2] == "key_hash")
                 ctx.check(ok, "R06.4", "%s|estimate-of-stored-hash" % n, "sampled keys are estimated from the hash recorded with their weight", f.where(b), fmt(arg))
-    ctx.floor("R06.4", "estimator invocations in the sampler", n_est, 2)
+    ctx.floor("R06.4", "estimator invocations in the sampler", n_est, 1)
 
     # ---- R06.5 sampler discipline ------------------------------------------------------------------------
     n_push = 0
@@ -263,7 +263,7 @@ def run(ctx):
                 if expr[0] == "binop" and expr[1] in ("Lt", "Le") and (mentions(expr, lambda s: s[0] == "field" and s[2] == "sample_size") or mentions(expr, lambda s: s == ("param", 2))):
                     bounded = True
             ctx.check(bounded, "R06.5", "%s|bounded-by-sample-size" % n, "sampling is bounded by the configured sample size", f.where())
-    ctx.floor("R06.5", "sample push sites", n_push, 2)
+    ctx.floor("R06.5", "sample push sites", n_push, 1)
     for pn in sorted(pop_fns):
         g = F.fn(pn)
         rm = g.calls_to("std::collections::HashSet::<T, S, A>::remove")
@@ -284,18 +284,55 @@ def is_max(e):
     return isinstance(e, tuple) and e[0] == "field" and e[2] == "max_weight" or (isinstance(e, tuple) and e[0] == "call" and "max" in e[1])
 
 
-def eval_ordering(e, signs):
+def eval_ordering(e, signs, F_=None):
     """abstractly evaluate an Ordering-valued expression of a comparator fn(self=param1, other=param2):
     signs[field] = sign(self.field - other.field); returns sign of the Ordering (-1 Less, 0 Equal, 1 Greater)"""
     if e[0] == "call" and (e[1].endswith("Ord>::cmp") or e[1].endswith("Ord::cmp") or "impl std::cmp::Ord for" in e[1]):
         a, b = e[2]
         return cmp_values(a, b, signs)
     if e[0] == "call" and e[1].endswith("Ordering::then"):
-        first = eval_ordering(e[2][0], signs)
-        return first if first != 0 else eval_ordering(e[2][1], signs)
+        first = eval_ordering(e[2][0], signs, F_)
+        return first if first != 0 else eval_ordering(e[2][1], signs, F_)
     if e[0] == "call" and e[1].endswith("Ordering::reverse"):
-        return -eval_ordering(e[2][0], signs)
+        return -eval_ordering(e[2][0], signs, F_)
+    if e[0] == "call" and e[1].endswith("Ordering::then_with") and len(e[2]) == 2 and e[2][1][0] == "agg" and F_ is not None and e[2][1][1] in F_.fns:
+        first = eval_ordering(e[2][0], signs, F_)
+        if first != 0:
+            return first
+        from sym import _subst
+        c = F_.fns[e[2][1][1]]
+        return eval_ordering(_subst(c.origin_local(0), [e[2][1]]), signs, F_)
+    if e[0] == "agg" and e[1].endswith("cmp::Ordering") and e[2] in ("Less", "Equal", "Greater"):
+        return {"Less": -1, "Equal": 0, "Greater": 1}[e[2]]
     raise ValueError("comparator shape not understood: %s" % fmt(e)[:80])
+
+
+def eval_comparator(F, f, signs):
+    """sign of the Ordering a comparator returns under the given field orderings: the one path of f (helpers and
+    closures inlined) whose branch atoms are consistent with them, its result evaluated abstractly"""
+    names = {-1: "Less", 0: "Equal", 1: "Greater"}
+    got = set()
+    for p in ipaths(F, f, stop=lambda n: False, depth=2):
+        ok = True
+        for a in p.atoms:
+            if a[0] == "bool" and a[1][0] == "binop" and a[1][1] in ("Lt", "Le", "Eq", "Ne"):
+                s_ = cmp_values(a[1][2], a[1][3], signs)
+                truth = {"Lt": s_ < 0, "Le": s_ <= 0, "Eq": s_ == 0, "Ne": s_ != 0}[a[1][1]]
+                ok = ok and truth == a[2]
+            elif a[0] == "bool" and a[1][0] == "call" and a[1][1].endswith("PartialOrd::le"):
+                ok = ok and (cmp_values(a[1][2][0], a[1][2][1], signs) <= 0) == a[2]
+            elif a[0] == "enum":
+                v = names[eval_ordering(a[1], signs, F)]
+                pos = [n for n in a[2] if not n.startswith("!")]
+                neg = [n[1:] for n in a[2] if n.startswith("!")]
+                ok = ok and ((v in pos) if pos else (v not in neg))
+            else:
+                raise ValueError("comparator test not understood: %s" % fmt(a[1])[:80])
+        if ok:
+            got.add(eval_ordering(p.ret, signs, F))
+    if len(got) != 1:
+        raise ValueError("comparator has %d consistent outcomes" % len(got))
+    return got.pop()
 
 
 def cmp_values(a, b, signs):
